@@ -115,6 +115,12 @@ func loadMsgVectors(path string) (*wLayout, []cwVec, error) {
 		out = append(out, cwVec{"Twrite", []byte{9, 0}, map[string]interface{}{"fid": le32(7), "offset": le64(1 << 40), "data": pat(n)}})
 		out = append(out, cwVec{"Rread", []byte{9, 0}, map[string]interface{}{"data": pat(n)}})
 	}
+	// strings at and beyond what a 16-bit length can announce: whatever the codec does with them, the frame
+	// accounting must stay right (nothing longer than msize leaves, prefix == bytes written)
+	for _, n := range []int{65535, 65536, 70000} {
+		out = append(out, cwVec{"Rerror", []byte{3, 0}, map[string]interface{}{"ename": pat(n)}})
+		out = append(out, cwVec{"Tattach", []byte{3, 0}, map[string]interface{}{"fid": le32(1), "afid": le32(2), "uname": pat(n), "aname": pat(3)}})
+	}
 	for _, c := range []uint32{0, 1, 12, 13, 14, 20, 29, 30, 31, 52, 53, 60, 4085, 65524, 65525, 65526, 65536, 1<<20 - 11, 1 << 20, 1<<31 - 1, 1 << 31, 1<<32 - 2, 1<<32 - 1} {
 		out = append(out, cwVec{"Tread", []byte{4, 0}, map[string]interface{}{"fid": le32(3), "offset": le64(0xFFFFFFFFFFFFFFFF), "count": le32(c)}})
 	}
